@@ -23,7 +23,7 @@ ENV.pop("RUSTFLAGS", None)
 
 QUICK_CAP = int(os.environ.get("VERIF_QUICK_CAP", "600"))      # seconds per harness, quick tier
 THOROUGH_CAP = int(os.environ.get("VERIF_THOROUGH_CAP", "3600"))
-MEM_GB = int(os.environ.get("VERIF_MEM_GB", "12"))
+MEM_GB = int(os.environ.get("VERIF_MEM_GB", "20"))
 JOBS = int(os.environ.get("VERIF_JOBS", "12"))
 PLAYBACK_MEM_GB = int(os.environ.get("VERIF_PLAYBACK_MEM_GB", "44"))
 
@@ -186,7 +186,7 @@ def classify(h, res, rc, timed_out, out):
     # behaviour (manual ch.1: PRINT 10/0 ' inf) and no property forbids it, so these checks are not obligations.
     failed = [c for c in checks if c["status"] == "FAILURE" and ".NaN." not in c["name"]]
     nan_failed = [c for c in checks if c["status"] == "FAILURE" and ".NaN." in c["name"]]
-    undet = [c for c in checks if c["status"] == "UNDETERMINED"]
+    undet = [c for c in checks if c["status"] in ("UNDETERMINED", "ERROR")]
     covers = [c for c in checks if is_cover(c)]
     if res["verdict"] is None:
         note = "no verdict (rc=%s)" % rc
@@ -209,7 +209,8 @@ def classify(h, res, rc, timed_out, out):
     if unw:
         return "unwind", unw, []
     if undet:
-        return "error", undet, ["undetermined checks"]
+        why = "solver error on %d checks (typically memory)" % len(undet) if any(c["status"] == "ERROR" for c in undet) else "undetermined checks"
+        return "error", undet, [why]
     if res["verdict"] != "SUCCESSFUL" and not nan_failed:
         return "error", [], ["verdict %s without failed checks" % res["verdict"]]
     bad_cov = [c for c in covers if c["status"] != "SATISFIED"]
